@@ -1624,6 +1624,79 @@ fn main() {
     }
     run.to_coq = true;
 
+    // ---- A4. large chunks and large offsets (oracle only: the sources are too big for coqc).
+    // The VM keeps, per stack value, a range of instruction indices; a Span keeps line, column
+    // and byte offsets: both must survive chunks of more than 2^16 / 2^17 instructions and
+    // sources of more than 2^16 lines, 2^16 columns and 2^20 bytes.
+    run.to_coq = false;
+    {
+        let big_faults = ["div-zero", "math-on-string", "cmp-incomparable", "undef-var", "filter-invalid-arg", "iter-non-iterable",
+            "field-of-undefined", "bad-index-kind", "neg-string", "component-wrong-type", "unexpected-token", "unknown-filter"];
+        let faults: Vec<&Fault> = all_faults.iter().filter(|x| big_faults.contains(&x.label)).collect();
+        // (a) the first instruction of the planted statement has index t in its chunk:
+        // "{{ 1 }}" is 2 instructions, "{{ 1 }}\n" is 3
+        let targets: Vec<usize> = if thorough { vec![65534, 65535, 65536, 65537, 65538, 131071, 131072, 131073, 196609] } else { vec![65535, 65536, 131073] };
+        let placements = ["top", "ancestor-block", "component", "include", "child-block-super", "include-in-include"];
+        let mut n_big = 0usize;
+        for (ti, t) in targets.iter().enumerate() {
+            let m = match t % 3 { 0 => 0, 2 => 1, _ => 2 };
+            let n = (t - 2 * m) / 3;
+            let filler = format!("{}{}", "{{ 1 }}".repeat(m), "{{ 1 }}\n".repeat(n));
+            let recipe = format!("\"{{{{ 1 }}}}\" x {m} ++ \"{{{{ 1 }}}}\\n\" x {n} (= {t} instructions)");
+            for (fi, fault) in faults.iter().enumerate() {
+                for (pi, pl) in placements.iter().enumerate() {
+                    if !thorough && (pi >= 4 || (fi + pi + ti) % 2 == 1) {
+                        continue;
+                    }
+                    let mut p = plant(fault, pl, ("big-chunk", &filler), SUFFIXES[(fi + pi) % SUFFIXES.len()], WRAPS[0], PREFIXES[5]);
+                    p.expect_msg = baseline.get(fault.label).cloned();
+                    p.desc["templates"] = json!(p.templates.iter().map(|(n, t)| json!([n, t.replace(&filler, &format!("⟪{recipe}⟫"))])).collect::<Vec<_>>());
+                    p.desc["instructions_before_the_fault"] = json!(t);
+                    run.run_plant(&p, fault, &ctx);
+                    n_big += 1;
+                }
+            }
+        }
+        // (b) large line numbers, columns and byte offsets
+        let layouts: Vec<(&str, String)> = vec![
+            ("70000-lines", "\n".repeat(70000)),
+            ("70000-columns", "x".repeat(70000)),
+            ("70000-columns-2-byte", format!("l1\n{}", "é".repeat(70000))),
+            ("70000-lines-3-byte", "日\n".repeat(70000)),
+            ("1.2MB-120000-lines", "日本語\r\n".repeat(110000)),
+            ("2^16-boundary", format!("{}\n{}", "a\n".repeat(65534), "b".repeat(65535))),
+        ];
+        for (li, (name, pre)) in layouts.iter().enumerate() {
+            if !thorough && li == 4 {
+                continue;
+            }
+            for (fi, fault) in faults.iter().enumerate() {
+                for (pi, pl) in ["top", "include", "component"].iter().enumerate() {
+                    if !thorough && (fi + pi + li) % 3 != 0 {
+                        continue;
+                    }
+                    let mut p = plant(fault, pl, (name, pre), SUFFIXES[(fi + li) % SUFFIXES.len()], WRAPS[0], PREFIXES[6]);
+                    p.expect_msg = baseline.get(fault.label).cloned();
+                    p.desc["templates"] = json!(p.templates.iter().map(|(n, t)| json!([n, t.replace(pre.as_str(), &format!("⟪layout {name}: {} bytes⟫", pre.len()))])).collect::<Vec<_>>());
+                    run.run_plant(&p, fault, &ctx);
+                    n_big += 1;
+                }
+            }
+            // the token stream of such a source: the last tokens carry the large numbers
+            let src = format!("{pre}{{{{ a.b }}}} é {{% if x %}}");
+            if let Ok(toks) = lex(&src, Delimiters::default(), false) {
+                for (_, sp) in toks.iter().rev().take(8) {
+                    run.meta.oracle_checks += 1;
+                    if let Some(why) = span_problem(&src, sp) {
+                        run.meta.oracle_fail(&format!("token span: {why}"), None, json!({"source": format!("layout `{name}` ++ \"{{{{ a.b }}}} é {{% if x %}}\""), "span": json_span(sp)}));
+                    }
+                }
+            }
+        }
+        run.count(&format!("large-plants:{n_big}"));
+    }
+    run.to_coq = true;
+
     // ---- B. truncation sweeps: every prefix of small templates
     let sweep = [
         "{{ 1 + 2 }}",
